@@ -410,3 +410,159 @@ Proof.
   assert (H : LN2 s) by (apply (run_fst_snoc evs (init cfg t0) LN2); [intros; apply LN2_step; assumption|apply LN2_init]).
   apply (proj1 H). congruence.
 Qed.
+
+(* ---- the terminal calls a learner receives ---------------------------------------------------------------------------- *)
+Definition is_terminal (o : obs) : bool :=
+  match o with OGhost (GSucceeded _) | OGhost (GFailed _ _) | OGhost (GAbandoned _) => true | _ => false end.
+Definition term_calls (s : state) : list obs := filter is_terminal (s_out s).
+Definition GH (g : list obs) (s : state) : Prop := term_calls s = g.
+Ltac t_gh := intros; unfold GH, term_calls in *;
+  first [assumption | (rewrite upd_inv_eq; assumption) | (rewrite upd_task_eq; assumption) | (rewrite upd_op_eq; assumption)
+        | (rewrite upd_worker_eq; assumption) | (rewrite upd_scq_eq; assumption) | (cbn; assumption)].
+
+Lemma GH_ct_prefix : forall t b s, term_calls (ct_prefix t b s) = term_calls s.
+Proof. intros t b s. assert (H : GH (term_calls s) s) by reflexivity. assert (H1 : GH (term_calls s) (ct_prefix t b s)); [|exact H1]. unfold ct_prefix. fr_go (GH (term_calls s)) t_gh. Qed.
+
+Lemma GH_schedule : forall t s, term_calls (schedule t s) = term_calls s.
+Proof. intros t s. assert (H : GH (term_calls s) s) by reflexivity. assert (H1 : GH (term_calls s) (schedule t s)); [|exact H1]. fr_go (GH (term_calls s)) t_gh. Qed.
+
+Lemma GH_ct_tail : forall t r x p k s retry, term_calls (ct_tail t r x p k s retry) = term_calls s.
+Proof.
+  intros t r x p k s retry. assert (H : GH (term_calls s) s) by reflexivity.
+  assert (H1 : GH (term_calls s) (ct_tail t r x p k s retry)); [|exact H1]. unfold ct_tail.
+  destruct retry as [[d tm]|]; fr_go (GH (term_calls s)) t_gh.
+Qed.
+
+(* the call the learner of a task receives when the task is completed with [r] (by its worker or not) *)
+Definition learner_call (l : learner) (r : resp) (by_worker : bool) : obs :=
+  if resp_success r then OGhost (GSucceeded (l_id l))
+  else if by_worker then OGhost (GFailed (l_id l) (r_code r =? cDEADLINE)%N)
+  else OGhost (GAbandoned (l_id l)).
+
+(* the learner the task holds afterwards *)
+Definition learner_next (l : learner) (r : resp) (by_worker : bool) : option learner :=
+  if resp_success r then None
+  else if by_worker then match l_fail l with Some (_, _, nl) => Some nl | None => None end
+  else None.
+
+Lemma ct_learner_calls : forall t r b x p k s l,
+  t_learner x = Some l ->
+  let sr := ct_learner t r b x p k s in
+  term_calls (fst sr) = learner_call l r b :: term_calls s \/
+  exists bidx bdur btimeout bl, resp_success r = true /\ l_succ l = Some (bidx, bdur, btimeout, bl) /\
+     term_calls (fst sr) = OGhost (GAbandoned (l_id bl)) :: learner_call l r b :: term_calls s.
+Proof.
+  intros t r b x p k s l El sr. unfold sr, ct_learner, learner_call. rewrite El. clear sr.
+  destruct (resp_success r) eqn:Es.
+  - cbv zeta. set (s5 := upd_task t _ (emit _ s)).
+    assert (E5 : term_calls s5 = OGhost (GSucceeded (l_id l)) :: term_calls s) by reflexivity. clearbody s5.
+    destruct (l_succ l) as [[[[bidx bdur] btimeout] bl]|] eqn:Esu; [|left; exact E5].
+    destruct (Nat.eqb (p_maxbg p) 0).
+    { right. exists bidx, bdur, btimeout, bl. split; [reflexivity|]. split; [reflexivity|]. cbn [fst]. unfold term_calls in *. cbn. rewrite E5. reflexivity. }
+    set (s6 := get_or_create_invocation _ _ s5).
+    assert (E6 : term_calls s6 = term_calls s5) by (unfold term_calls, s6; f_equal; apply goc_frames). clearbody s6.
+    destruct (Nat.leb _ _).
+    { right. exists bidx, bdur, btimeout, bl. split; [reflexivity|]. split; [reflexivity|]. cbn [fst]. unfold term_calls in *. cbn. rewrite E6, E5. reflexivity. }
+    left. unfold new_operation. cbn [fst]. rewrite GH_schedule. unfold term_calls in *. cbn. rewrite E6, E5. reflexivity.
+  - destruct b; cbv zeta.
+    + destruct (l_fail l) as [[[d tm] nl]|]; cbn [fst]; left; reflexivity.
+    + cbn [fst]. left. reflexivity.
+Qed.
+
+(* learner_linear, at task.complete: the learner held by an uncompleted task receives exactly one terminal call
+   -- Succeeded / Failed / Abandoned as the response and its origin say -- and the only other terminal call made
+   is the Abandoned of the background learner a successful learner hands over, when no background task is created *)
+Lemma learner_gets_one_call : forall t r b s l p,
+  t_resp (get_task s t) = None -> t_learner (get_task s t) = Some l -> get_pq s (sk_pk (task_scq s t)) = Some p ->
+  let s' := complete_task t r b s in
+  term_calls s' = learner_call l r b :: term_calls s \/
+  exists bidx bdur btimeout bl, resp_success r = true /\ l_succ l = Some (bidx, bdur, btimeout, bl) /\
+     term_calls s' = OGhost (GAbandoned (l_id bl)) :: learner_call l r b :: term_calls s.
+Proof.
+  intros t r b s l p Hr Hl Hp s'. unfold s'. rewrite complete_task_eq2, Hr. cbv zeta.
+  destruct (ct_prefix_frames t b s) as [_ [_ Ep]]. pose proof (GH_ct_prefix t b s) as E4.
+  set (s4 := ct_prefix t b s) in *. clearbody s4.
+  assert (Eq : get_pq s4 (sk_pk (task_scq s t)) = Some p) by (unfold get_pq; rewrite Ep; exact Hp). rewrite Eq.
+  pose proof (ct_learner_calls t r b (get_task s t) p (task_scq s t) s4 l Hl) as Hc. cbv zeta in Hc.
+  destruct (ct_learner t r b (get_task s t) p (task_scq s t) s4) as [s5 retry]. cbn [fst] in Hc.
+  rewrite GH_ct_tail. rewrite E4 in Hc. exact Hc.
+Qed.
+
+(* no terminal call without a learner to call: completed tasks and tasks without learner *)
+Lemma no_learner_no_call : forall t r b s,
+  t_resp (get_task s t) <> None \/ t_learner (get_task s t) = None ->
+  term_calls (complete_task t r b s) = term_calls s.
+Proof.
+  intros t r b s H. rewrite complete_task_eq2. destruct (t_resp (get_task s t)) eqn:Er; [reflexivity|].
+  destruct H as [H|Hl]; [congruence|]. cbv zeta. pose proof (GH_ct_prefix t b s) as E4.
+  set (s4 := ct_prefix t b s) in *. clearbody s4. destruct (get_pq s4 _) as [p|]; [|exact E4].
+  unfold ct_learner. rewrite Hl. rewrite GH_ct_tail. exact E4.
+Qed.
+
+Definition TLk (t : nat) (lr : option learner) (s : state) : Prop := t_learner (get_task s t) = lr.
+Ltac t_tlk := intros; unfold TLk in *; first [ (erewrite get_task_frame; [eassumption | frame_eq])
+        | (rewrite get_task_upd_task; let E := fresh "E" in destruct (Nat.eqb _ _) eqn:E; [apply Nat.eqb_eq in E; subst; cbn; assumption | assumption]) ].
+
+(* the learner held afterwards: the successor after a failure reported by the worker, none otherwise *)
+Lemma learner_after_complete : forall t r b s l p,
+  (t < s_ntasks s)%nat ->
+  t_resp (get_task s t) = None -> t_learner (get_task s t) = Some l -> get_pq s (sk_pk (task_scq s t)) = Some p ->
+  t_learner (get_task (complete_task t r b s) t) = learner_next l r b.
+Proof.
+  intros t r b s l p Hlt Hr Hl Hp. rewrite complete_task_eq2, Hr. cbv zeta.
+  destruct (ct_prefix_frames t b s) as [[K1 [K2 [K3 _]]] [_ Ep]].
+  assert (Hlt4 : (t < s_ntasks (ct_prefix t b s))%nat).
+  { assert (Hk : keeps_counts (s_ntasks s) (s_nops s) (ct_prefix t b s)).
+    { assert (H0 : keeps_counts (s_ntasks s) (s_nops s) s) by (split; reflexivity). unfold ct_prefix. fr_go (keeps_counts (s_ntasks s) (s_nops s)) t_counts. }
+    destruct Hk as [Hk _]. rewrite Hk. exact Hlt. }
+  set (s4 := ct_prefix t b s) in *. clearbody s4.
+  assert (Eq : get_pq s4 (sk_pk (task_scq s t)) = Some p) by (unfold get_pq; rewrite Ep; exact Hp). rewrite Eq.
+  (* the learner block *)
+  assert (H5 : let sr := ct_learner t r b (get_task s t) p (task_scq s t) s4 in
+               t_learner (get_task (fst sr) t) = learner_next l r b /\ t_resp (get_task (fst sr) t) = None).
+  { unfold ct_learner, learner_next. rewrite Hl. rewrite Hr in K3.
+    assert (Hset : forall (s0 : state) lr, t_resp (get_task s0 t) = None ->
+              t_learner (get_task (upd_task t (fun x => x <| t_learner := lr |>) s0) t) = lr /\
+              t_resp (get_task (upd_task t (fun x => x <| t_learner := lr |>) s0) t) = None).
+    { intros s0 lr Hr0. rewrite get_task_upd_task, Nat.eqb_refl. cbn. auto. }
+    destruct (resp_success r).
+    - cbv zeta. destruct (Hset (emit (OGhost (GSucceeded (l_id l))) s4) None K3) as [A B].
+      assert (Hlt5 : (t < s_ntasks (upd_task t (fun x => x <| t_learner := None |>) (emit (OGhost (GSucceeded (l_id l))) s4)))%nat) by exact Hlt4.
+      set (s5 := upd_task t _ (emit _ s4)) in *. clearbody s5.
+      destruct (l_succ l) as [[[[bidx bdur] btimeout] bl]|]; [|cbn [fst]; auto].
+      destruct (Nat.eqb (p_maxbg p) 0); [cbn [fst]; rewrite get_task_emit; auto|].
+      set (s6 := get_or_create_invocation _ _ s5).
+      assert (E6 : get_task s6 t = get_task s5 t) by (apply get_task_frame; apply goc_frames).
+      assert (N6 : s_ntasks s6 = s_ntasks s5) by apply get_or_create_invocation_tasks. clearbody s6.
+      destruct (Nat.leb _ _); [cbn [fst]; rewrite get_task_emit, E6; auto|].
+      assert (Hlt6 : (t < s_ntasks s6)%nat) by lia.
+      match goal with |- context [new_operation ?bt ?prio ?bi true ?sN] =>
+        pose proof (bg_block_reads t s6 (mkTask [] (t_instance (get_task s t)) (t_digest (get_task s t)) (Some true) btimeout (t_qts (get_task s t)) (t_suffix (get_task s t)) None 0 bdur (Some bl) None 0) prio bi Hlt6) as [_ [T2 [T3 _]]]
+      end.
+      cbv zeta in T2, T3. unfold new_operation in *. cbn [fst snd] in *. rewrite T2, T3, E6. auto.
+    - destruct b; cbv zeta.
+      + destruct (l_fail l) as [[[d tm] nl]|]; cbn [fst]; apply Hset; exact K3.
+      + cbn [fst]. apply Hset. exact K3. }
+  cbv zeta in H5. destruct (ct_learner t r b (get_task s t) p (task_scq s t) s4) as [s5 retry]. cbn [fst] in H5. destruct H5 as [A B].
+  (* the tail keeps the learner *)
+  assert (Ht : forall x0 : task, TKeep t x0 s5 -> t_learner (get_task (ct_tail t r (get_task s t) p (task_scq s t) s5 retry) t) = t_learner x0).
+  { intros x0 Hx. unfold ct_tail. destruct retry as [[d tm]|]; cbv zeta.
+    - set (old := t_ops (get_task s5 t)).
+      destruct (goc_fold_frames (mkSK (sk_pk (task_scq s t)) (largest_sc p)) old s5) as [G1 _]. set (s6 := fold_left _ old s5) in *.
+      match goal with |- context [schedule t (fold_left ?g old ?e)] => set (s7 := e); fold (retarget_fold (mkSK (sk_pk (task_scq s t)) (largest_sc p)) old s7) end.
+      assert (E8 : s_tasks (retarget_fold (mkSK (sk_pk (task_scq s t)) (largest_sc p)) old s7) = s_tasks s7).
+      { generalize old. intro l0. generalize s7. induction l0 as [|[i o] l0 IH]; intro sx; cbn [retarget_fold fold_left]; [reflexivity|].
+        fold (retarget_fold (mkSK (sk_pk (task_scq s t)) (largest_sc p)) l0 (upd_op o (fun y => y <| o_inv := mkI (mkSK (sk_pk (task_scq s t)) (largest_sc p)) (i_path i) |>) sx)).
+        rewrite IH. rewrite upd_op_eq. reflexivity. }
+      set (s8 := retarget_fold _ old s7) in *.
+      destruct (schedule_frames t (get_task s8 t) t s8) as [[_ [S2 _]] _]; [unfold TKeep; auto|].
+      unfold report_non_final_stage_change. rewrite get_task_upd_task, Nat.eqb_refl. cbn. rewrite S2.
+      rewrite (get_task_frame _ _ _ E8). unfold s7. rewrite get_task_upd_task, Nat.eqb_refl. cbn.
+      rewrite (get_task_frame _ _ _ G1). apply Hx.
+    - assert (Hk : TKeep t x0 s5) by exact Hx. clear Hx.
+      destruct Hk as [_ [Hk _]].
+      assert (H0 : TLk t (t_learner x0) s5) by exact Hk.
+      match goal with |- t_learner (get_task ?e t) = _ => assert (Hl5 : TLk t (t_learner x0) e); [|exact Hl5] end.
+      fr_go (TLk t (t_learner x0)) t_tlk. }
+  rewrite (Ht (get_task s5 t)); [exact A|unfold TKeep; auto].
+Qed.
